@@ -39,6 +39,19 @@ pub fn run(ctx: &mut Ctx, replay: Option<&str>) {
             flows.push((f, false));
             ctx.count("stream.special_claim_set");
         }
+        // outside the property's quantifier (C01 excludes a user cnf when a holder key is bound) but inside the model: the user's
+        // cnf is hidden while the issuer's sits in the clear, and the selection names members of it. Judged by the
+        // correspondence with the model only (the property oracle cannot place the disclosures of such a credential)
+        for (k, st) in [Strategy::All, Strategy::Top, Strategy::Custom(vec!["$.cnf".into(), "$.cnf.jwk".into(), "$.cnf.kid".into()])].into_iter().enumerate() {
+            for sel in [json!({"cnf": {"jwk": true}}), json!({"cnf": {"jwk": {"kty": true}, "kid": true}}), json!({"cnf": true, "other": true}), json!({"cnf": {"kid": true, "no_such": true}})] {
+                for holder in [crate::keys::KeyId::HolderEc, crate::keys::KeyId::HolderEd] {
+                    let claims = json!({"iss": "https://issuer.example", "exp": now() + 100000, "cnf": {"jwk": {"kty": "EC", "crv": "P-256", "x": "upstream"}, "kid": "upstream-key"}, "other": [1, 2]});
+                    flows.push((Flow { issue: IssueArgs { claims, strategy: st.clone(), holder: Some(holder), decoy: k % 2 == 0, fmt: if k % 2 == 0 { Fmt::Compact } else { Fmt::Json }, key: crate::keys::KeyId::IssuerEc, alg: None, queue: None },
+                                        sel: sel.as_object().cloned().unwrap_or_default(), kb: None }, true));
+                    ctx.count("stream.user_cnf_with_holder_key(correspondence only)");
+                }
+            }
+        }
         let n = ctx.tier.pick(500, 8000);
         for i in 0..n {
             let mut r = ctx.rng.fork(i as u64);
